@@ -127,6 +127,31 @@ def binds(ctx, case):
             ctx.check('connection %d: the mention goes to its own object' % k, c.messages()[2].args[0].obj is objs[0] and c.messages()[2].obj is objs[0])
 
 
+def many_connections(ctx, case):
+    """a compositor under GDB holds hundreds of connections at once: each stays the connection it is for as long as libwayland has not destroyed it,
+    however many others are open and however long it has been quiet"""
+    K = case
+    from harness import gdbworld
+    w = gdbworld.make_plugin()
+    base = 0x7f0000001000
+    for i in range(K):
+        gdbworld.fire_message(w, base + 0x100 * i, 1, 'sync', True, i)
+    conns = list(w.manager.connections())
+    ctx.check('one connection per libwayland connection seen', len(conns) == K and all(c.is_open() for c in conns))
+    pick = ctx.choose([0, 1, K // 2, K - 1], 'speaks_again')
+    gone = ctx.choose([None, 2, K - 2], 'destroyed_meanwhile')
+    if gone is not None:
+        gdbworld.fire_destroy(w, base + 0x100 * gone)
+    n0 = len(w.out.items)
+    gdbworld.fire_message(w, base + 0x100 * pick, 1, 'sync', True, 7)
+    after = list(w.manager.connections())
+    ctx.check('a message on a connection that was quiet for long goes to THAT connection (no new one, none closed)',
+              len(after) == K and after == conns and len(conns[pick].messages()) == 2 and conns[pick].is_open())
+    ctx.check('exactly the destroyed connection is closed', [i for i, c in enumerate(conns) if not c.is_open()] == ([gone] if gone is not None else []))
+    ctx.check('one Closed notice per destroyed connection, no New notice for a known one',
+              len([x for x in w.out.items if x.startswith('Closed ')]) == (1 if gone is not None else 0) and not any(x.startswith('New ') for x in w.out.items[n0:]))
+
+
 def twin(ctx, case):
     history(ctx, case)
     ctx.check('reachability twin (must be violated)', False)
@@ -140,4 +165,7 @@ def obligations(tier):
             Ob('binds-on-two-connections', 'symx', 'two connections bind the same id (client or server range) to the same or different interfaces, then mention it: own table, own interface, nothing leaves stop()',
                FUNCS + ['backends.gdb_plugin.extract:extract_message', 'core.wl.message:Message.resolve', 'core.wl.arg:Arg.Object.set_type'],
                '2 addresses (other / same after destroy) x 2 x 2 interfaces x 2 threads x 2 ids', binds, cases=[None]),
+            Ob('many-connections', 'symx', 'hundreds of simultaneously open connections: a quiet one stays itself; only destroyed ones are closed', FUNCS,
+               '129, 200, 300%s connections x which one speaks again x one destroyed meanwhile or not' % ('' if tier == 'quick' else ', 1100'), many_connections,
+               cases=[129, 200, 300] if tier == 'quick' else [129, 200, 300, 1100], stubs=['fake gdb']),
             Ob('event-histories-reachable', 'symx', 'reachability twin', FUNCS, bounds, twin, cases=[2], expect_cex=True)]
